@@ -1,5 +1,7 @@
 import RecipeGrid.Lemmas.Table
-/-! C02 — the table layout: cells tile the grid, every node is drawn exactly once. -/
+/-! C02 — the table layout: cells tile the grid (C02.1), every node is drawn exactly once (C02.2), steps, titles and
+    outputs sit where they should (C02.3), every subtree fills a rectangle (C02.4), borders follow the outlines (C02.5).
+    Helper lemmas are in `Lemmas/Table.lean`. -/
 namespace RG.C02
 
 mutual
@@ -185,6 +187,102 @@ theorem outputs_geometry (t : Tree) (h : wf t = true) (q : List Nat) (b : Tree) 
   refine ⟨a1, a2, a3, a4, ?_, a6⟩
   rw [region_eq, a5]; rfl
 
+-- ---------------------------------------------------------------- C02.5 borders
+
+inductive Side | left | right | top | bottom
+deriving DecidableEq, Repr
+
+/-- the border drawn on one side of a cell -/
+def border (x : PCell) : Side → Border
+  | .left => x.bl | .right => x.br | .top => x.bt | .bottom => x.bb
+/-- the grid line on which one side of a cell lies -/
+def cellEdge (x : PCell) : Side → Nat
+  | .left => x.col | .right => x.col + x.cols | .top => x.row | .bottom => x.row + x.rows
+/-- the grid line on which one side of a box lies -/
+def Box.edge (b : Box) : Side → Nat
+  | .left => b.left | .right => b.right | .top => b.top | .bottom => b.bottom
+
+/-- the nodes that get an outline: the root (unless it has an outputs column), every single-output
+    sub recipe, and the body of every sub recipe with an outputs column -/
+def outlined (t : Tree) (q : List Nat) : Prop :=
+  (q = [] ∧ ∀ b ns sh, t = .sub b ns sh → ns.length = 1) ∨
+  (∃ b ns sh, t.at? q = some (.sub b ns sh) ∧ ns.length = 1) ∨
+  (∃ q' b ns sh, q = q' ++ [0] ∧ t.at? q' = some (.sub b ns sh) ∧ ns.length ≠ 1)
+
+/-- side `s` of cell `x` lies on side `s` of the region of an outlined node whose subtree contains `x` -/
+def onOutline (t : Tree) (x : PCell) (s : Side) : Prop :=
+  ∃ q, outlined t q ∧ under q x = true ∧ cellEdge x s = (region (layout t) q).edge s
+
+/-- the border a side has when it is not on an outline: nothing around the outputs column except on its left -/
+def plainBorder (x : PCell) (s : Side) : Border :=
+  if x.kind = .outputs ∧ s ≠ .left then .none else .normal
+
+private def toRG : Side → RG.Side
+  | .left => .left | .right => .right | .top => .top | .bottom => .bottom
+
+private theorem outlined_iff (t : Tree) (q : List Nat) : outlined t q ↔ outl true t q := by
+  simp [outlined, outl]
+
+private theorem onOutline_iff (t : Tree) (x : PCell) (s : Side) :
+    onOutline t x s ↔ Al (layout t).cells (outl true t) x (toRG s) := by
+  constructor
+  · rintro ⟨q, h1, h2, h3⟩
+    exact ⟨q, (outlined_iff t q).1 h1, under_iff.1 h2, by cases s <;> exact h3⟩
+  · rintro ⟨q, h1, h2, h3⟩
+    exact ⟨q, (outlined_iff t q).2 h1, under_iff.2 h2, by cases s <;> exact h3⟩
+
+/-- C02.5: a side of a cell has the sub-recipe border exactly when it lies on the same side of the region of an
+    outlined node containing the cell; every other side is plain (no border around the outputs column except on
+    its left, a normal border elsewhere) -/
+theorem layout_borders (t : Tree) (h : wf t = true) : ∀ x ∈ (layout t).cells, ∀ s,
+    (onOutline t x s → border x s = .subRecipe) ∧ (¬ onOutline t x s → border x s = plainBorder x s) := by
+  have H := layout_borders' t (wf_eq t ▸ h)
+  intro x hx s
+  have e1 : border x s = x.border (toRG s) := by cases s <;> rfl
+  have e2 : plainBorder x s = initBorder x.kind (toRG s) := by
+    cases s <;> simp [plainBorder, initBorder, toRG]
+  rw [onOutline_iff, e1, e2]
+  exact ⟨H.sub x hx _, H.ini x hx _⟩
+
+/-- Python's invariant: only the root can be a sub recipe with several outputs -/
+def multiOnlyAtRoot (t : Tree) : Prop :=
+  ∀ q b ns sh, t.at? q = some (.sub b ns sh) → ns.length ≠ 1 → q = []
+
+/-- C02.5 by cases, for trees satisfying Python's invariant: no border exactly on the top, right and bottom of the
+    outputs cell; otherwise the sub-recipe border exactly on the outlines; otherwise the normal border -/
+theorem layout_borders_cases (t : Tree) (h : wf t = true) (hm : multiOnlyAtRoot t) :
+    ∀ x ∈ (layout t).cells, ∀ s,
+      (border x s = .none ↔ (x.kind = .outputs ∧ s ≠ .left)) ∧
+      (border x s = .subRecipe ↔ (¬ (x.kind = .outputs ∧ s ≠ .left) ∧ onOutline t x s)) ∧
+      (border x s = .normal ↔ (¬ (x.kind = .outputs ∧ s ≠ .left) ∧ ¬ onOutline t x s)) := by
+  intro x hx s
+  obtain ⟨h1, h2⟩ := layout_borders t h x hx s
+  have hout : x.kind = .outputs → ¬ onOutline t x s := by
+    intro hk
+    obtain ⟨b, ns, sh, hq, hn⟩ := outputs_cell_at t x hx hk
+    have hp : x.path = [] := hm _ _ _ _ hq hn
+    rw [hp, at?_nil] at hq
+    simp only [Option.some.injEq] at hq
+    rintro ⟨q, ho, hu, _⟩
+    have hq0 : q = [] := by
+      have := under_iff.1 hu
+      rw [hp] at this
+      exact List.prefix_nil.1 this
+    subst hq0
+    rcases ho with ⟨_, ho⟩ | ⟨b', ns', sh', ho, hn'⟩ | ⟨q', _, _, _, ho, _⟩
+    · exact hn (ho b ns sh hq)
+    · rw [at?_nil, hq] at ho; cases ho; exact hn hn'
+    · simp at ho
+  by_cases hc : x.kind = .outputs ∧ s ≠ .left
+  · have hb := h2 (hout hc.1)
+    simp only [plainBorder, hc] at hb
+    simp [hb, hc]
+  · by_cases ha : onOutline t x s
+    · simp [h1 ha, hc, ha]
+    · have hb := h2 ha
+      simp only [plainBorder, hc, if_false] at hb
+      simp [hb, hc, ha]
+
 /-- non-vacuity: a step with two inputs, the second a titled sub recipe -/
 def exTree : Tree := .step [] [.ingredient [] none, .sub (.ingredient [] none) [[]] true]
 example : wf exTree = true := by decide
@@ -199,5 +297,39 @@ example : region (layout exTree) [] = ⟨0, 0, 3, 2⟩ ∧ region (layout exTree
 example := region_tiles exTree (by decide) [1] _ rfl
 example := step_geometry exTree (by decide) [] _ _ rfl
 example := header_geometry exTree (by decide) [1] _ _ rfl rfl
+example := layout_borders exTree (by decide)
+example : ((layout exTree).cells.map fun c => (c.path, c.bl, c.br, c.bt, c.bb)) =
+    [([0], .subRecipe, .normal, .subRecipe, .normal), ([1], .subRecipe, .subRecipe, .subRecipe, .normal),
+     ([1, 0], .subRecipe, .subRecipe, .normal, .subRecipe), ([], .normal, .subRecipe, .subRecipe, .subRecipe)] := by
+  decide
+
+/-- non-vacuity with an outputs column: a root with two outputs around the same step -/
+def exTree2 : Tree := .sub (.step [] [.ingredient [] none, .sub (.ingredient [] none) [[]] true]) [[], []] false
+example : multiOnlyAtRoot exTree2 := by
+  intro q b ns sh h hn
+  rcases q with _ | ⟨i, r⟩
+  · rfl
+  · exfalso
+    rcases i with _ | i
+    · rcases r with _ | ⟨i, r⟩
+      · simp [exTree2, Tree.at?] at h
+      · rcases i with _ | _ | i
+        · rcases r with _ | ⟨i, r⟩ <;> simp [exTree2, Tree.at?] at h
+        · rcases r with _ | ⟨i, r⟩
+          · simp [exTree2, Tree.at?] at h
+            exact hn (by rw [← h.2.1]; rfl)
+          · rcases i with _ | i
+            · rcases r with _ | ⟨i, r⟩ <;> simp [exTree2, Tree.at?] at h
+            · simp [exTree2, Tree.at?] at h
+        · simp [exTree2, Tree.at?] at h
+    · simp [exTree2, Tree.at?] at h
+example : wf exTree2 = true := by decide
+example := outputs_geometry exTree2 (by decide) [] _ _ _ rfl (by decide)
+example : ((layout exTree2).cells.map fun c => (c.path, c.kind, c.bl, c.br, c.bt, c.bb)) =
+    [([0, 0], .ingredient, .subRecipe, .normal, .subRecipe, .normal),
+     ([0, 1], .header, .subRecipe, .subRecipe, .subRecipe, .normal),
+     ([0, 1, 0], .ingredient, .subRecipe, .subRecipe, .normal, .subRecipe),
+     ([0], .step, .normal, .subRecipe, .subRecipe, .subRecipe),
+     ([], .outputs, .normal, .none, .none, .none)] := by decide
 
 end RG.C02
